@@ -384,6 +384,9 @@ impl PropertySet {
     pub fn set(&mut self, property_name: u32, property_value: PropertyValue) {
         if property_name == PROPERTY_CODEPAGE {
             if let PropertyValue::I2(codepage_id) = property_value {
+                // Code page IDs above 32767 (e.g. 65001 for UTF-8) are stored
+                // as negative 16-bit values.
+                let codepage_id = codepage_id as u16;
                 if let Some(codepage) = CodePage::from_id(codepage_id as i32) {
                     self.codepage = codepage;
                 }
